@@ -12,6 +12,7 @@ CONSTANTS Kinds,     \* families explored by this run
           MaxCount, MaxReset, MaxMove,
           MaxOps,    \* length of the history (depth of the exhaustive search)
           Split,     \* TRUE: count / value() as interleaving steps (ConcurrentReadBounds)
+          DSplit,    \* TRUE: the compact destructor as its steps (walk over the slots, release of the id)
           Reads      \* TRUE: value / for_each / for_each_alive are steps of the behaviour
 
 VARIABLE bud
@@ -37,7 +38,8 @@ Structure ==
   \/ \E t \in Thr : ThreadStart(t) /\ (IF t = 1 THEN TRUE ELSE tst[t - 1] # "new") /\ Cardinality(Live) < MaxLive
   \/ \E t \in Thr : ThreadExit(t)
   \/ \E o \in Obj : Create(o) /\ o = Lowest(FreeObj)
-  \/ \E o \in Obj : Destroy(o)
+  \/ \E o \in Obj : IF DSplit THEN DestroyBegin(o) ELSE Destroy(o)
+  \/ DSplit /\ (DestroyStep \/ DestroyEnd)
 
 Moves ==
   \/ \E a, b \in Obj : MoveAssign(a, b)
